@@ -11,6 +11,7 @@ Per request:
 """
 import os
 import re
+import zlib
 
 import e2e
 import vplib
@@ -21,6 +22,7 @@ from checks import relay_common as rc
 LOW = 100 * 1024                  # from the property text
 LARGE = 100 * 1024 * 1024
 MOCK_STATUS = 207                 # cannot be confused with a status the proxy makes up
+FOLLOW_BODY = b"follow-up body \x00\x01\xff"      # body of the small request that follows a refused one on the same connection
 
 EXEMPT_TARGETS = [("PUT", "/vmAgentLog"), ("PUT", "/VMAGENTLOG"), ("PUT", "/vmagentlog"), ("PUT", "/VmAgentLog#frag"),
                   ("POST", "/machine/?comp=telemetrydata"), ("POST", "/machine/?comp=TelemetryData"),
@@ -67,6 +69,10 @@ def prop_c15(case, obs):
         if rq["body_len"] != n or rq["body_crc32"] != case["crc"]:
             return "%s: relayed body differs from the client's (host got %d bytes, crc %08x; sent %d, crc %08x)" % (
                 where, rq["body_len"], rq["body_crc32"], n, case["crc"])
+    fo = obs.get("follow")
+    if fo and (fo["reached_host"] != fo["clean"] or (fo["status"] == MOCK_STATUS and fo["clean"] != 1)):
+        return ("%s: the next request on the same keep-alive connection did not reach the host as the client sent it (host saw %r, "
+                "client status %s) -- bytes of the earlier request travelled with it" % (where, fo["head"], fo["status"]))
     if n > limit:
         if obs["upstream_bytes"] != 0:
             return "%s exceeds the %d-byte limit but %d bytes were relayed upstream" % (where, limit, obs["upstream_bytes"])
@@ -152,6 +158,15 @@ def gen_cases(rng, quick):
         m, t = rng.choice(OTHER_TARGETS + EXEMPT_TARGETS)
         n = rng.choice([rng.randint(0, 2 * L), rng.randint(L - 3, L + 3), rng.randint(0, 5000)])
         both_modes(m, t, n, prop_limit(m, t))
+    # slightly over the limit, chunked, followed by a small request on the same keep-alive connection
+    for m, t in rng.sample(OTHER_TARGETS, 6) + [("POST", "/x"), ("PUT", "/vmAgentLog/")]:
+        over = rng.choice([1, 1, 2, 3, 100, 2405])
+        c = mk_case(rng, m, t, L + over, chunks_for(rng, L + over, L, rng.choice(["straddle", "even", "one"])), key=key())
+        c["follow"] = True
+        cases.append(c)
+    c = mk_case(rng, "POST", "/x", L, chunks_for(rng, L, L, "even"), key=key())      # and after an ACCEPTED body
+    c["follow"] = True
+    cases.append(c)
     # not on the relay path: forbidden caller, traversal, the local /provision endpoint
     for n in (L - 1, L + 1):
         both_modes("POST", "/machine?comp=x", n, L, kind="forbidden")
@@ -196,17 +211,34 @@ def scenario_of(i, c):
     head = e2e.http_request(c["method"], c["target"], hs)
     rq = e2e.req(head, gen_body={"len": c["n"], "seed": c["seed"], "chunk_sizes": c["chunks"]}, timeout_ms=120000)
     a = e2e.audit(e2e.WIRESERVER, uid=e2e.NOBODY_UID) if c["kind"] == "forbidden" else e2e.audit(e2e.WIRESERVER, uid=0)
-    return e2e.scenario("c15-%d" % i, [e2e.conn([rq], audit=a)], key=c["key"], upstream_capture=1024,
+    reqs = [rq]
+    if c.get("follow"):
+        # a second, small request on the same keep-alive connection (hyper keeps it open when the refused body was only slightly
+        # over the limit): nothing of the refused body may travel in front of it
+        reqs.append(e2e.req(e2e.http_request("POST", "/follow", [("x-tag", "c15-%d-follow" % i)], body=FOLLOW_BODY), timeout_ms=20000))
+    return e2e.scenario("c15-%d" % i, [e2e.conn(reqs, audit=a)], key=c["key"], upstream_capture=1024,
                         default_reply={"status": MOCK_STATUS}, scenario_timeout_ms=240000, drain_timeout_ms=60000)
 
 
 def observe(r):
-    resp = (r["connections"][0]["responses"] or [{}])[0] if r.get("connections") else {}
-    relayed = [i for cs in r["upstream"].values() for c in cs for i in c.get("request_info", [])]
-    return {"status": resp.get("status") if resp.get("complete") else None,
-            "upstream_bytes": sum(c["nbytes"] for cs in r["upstream"].values() for c in cs),
-            "relayed": [{"body_len": i["body_len"], "body_crc32": i["body_crc32"], "head": i["head"].decode("latin-1")} for i in relayed],
-            "sent_body": resp.get("sent_body"), "write_completed": resp.get("write_completed")}
+    rs = r["connections"][0]["responses"] if r.get("connections") else []
+    resp = rs[0] if rs else {}
+    infos = [i for cs in r["upstream"].values() for c in cs for i in c.get("request_info", [])]
+    follow = [i for i in infos if b"-follow\r\n" in i["head"]]
+    relayed = [i for i in infos if i not in follow]
+    total = sum(c["nbytes"] for cs in r["upstream"].values() for c in cs)
+    clean_follow = [i for i in follow if i["head"].startswith(b"POST /follow HTTP/1.1\r\n") and
+                    i["body_len"] == len(FOLLOW_BODY) and i["body_crc32"] == (zlib.crc32(FOLLOW_BODY) & 0xFFFFFFFF)]
+    obs = {"status": resp.get("status") if resp.get("complete") else None,
+           # bytes at the hosts that do not belong to a cleanly relayed follow-up request
+           "upstream_bytes": total - sum(i["end"] - i["start"] for i in clean_follow),
+           "relayed": [{"body_len": i["body_len"], "body_crc32": i["body_crc32"], "head": i["head"].decode("latin-1")} for i in relayed],
+           "sent_body": resp.get("sent_body"), "write_completed": resp.get("write_completed")}
+    if len(rs) > 1 or follow:
+        obs["follow"] = {"status": rs[1].get("status") if len(rs) > 1 and rs[1].get("complete") else None,
+                         "reached_host": len(follow), "clean": len(clean_follow),
+                         "head": [i["head"][:80].decode("latin-1") for i in follow]}
+    return obs
 
 
 # ------------------------------------------------------------------------------------------
